@@ -13,9 +13,11 @@ Keeps the hand-maintained places of the C10 check consistent with the tree in /r
                       consumers read by the property's per-row rule), the full theorem C10_producers_consumers
                       describes the tree (C10_producers_consumers_of_the_source), the old rule stays as the
                       regression theorems C10_producers_consumers_partial / _refuted.
-  assign snapshot     Simulator snapshots model.get_parameter_values() per segment (plain values only): the
-                      finding C10-assigned-parameter-snapshot is recorded, cases of the assigned-parameter
-                      stream inside its guard are excused;
+  assign snapshot     (THE DELIVERED POSITION; lead's decision 2026-10-02: the repair is not applied because it changes
+                      what Simulator records per segment, which C04/C14/C09/C12 observe.)  Simulator snapshots
+                      model.get_parameter_values() per segment (plain values only): the finding
+                      C10-assigned-parameter-snapshot is recorded, cases of the assigned-parameter stream inside
+                      its guard are excused;
   assign repaired     fixes/C10-segment-parameters-keep-assignments.diff is applied: the finding moves to
                       "fixed", every case of the stream is judged.  (No Coq switch: assignment-defined
                       parameters are validated by the oracle only.)
@@ -66,7 +68,7 @@ ASSIGN_FINDING = {
         "kind": "assign",
         "see": "harness/c10_assign.py WITNESS; demo findings/c10_assigned_parameter_snapshot.py"
     },
-    "what_fails": "the per-segment parameter snapshot is model.get_parameter_values(), which lists plain values only: a parameter that is a number in segment 0 and the assignment 2*p in segment 1 is reported (and used for fluxes, derived values, derivatives) with the stale number in segment 1; one that is an assignment in segment 0 and a number later is reported with the later number in segment 0 (demo: findings/c10_assigned_parameter_snapshot.py; proposed repair fixes/C10-segment-parameters-keep-assignments.diff: snapshot {k: p.value} of the raw parameters, suite-neutral 1378; recorded until the lead applies it, then tools/c10_switch.py assign repaired <commit>)"
+    "what_fails": "the per-segment parameter snapshot is model.get_parameter_values(), which lists plain values only: a parameter that is a number in segment 0 and the assignment 2*p in segment 1 is reported (and used for fluxes, derived values, derivatives) with the stale number in segment 1; one that is an assignment in segment 0 and a number later is reported with the later number in segment 0 (demo: findings/c10_assigned_parameter_snapshot.py; a repair exists -- fixes/C10-segment-parameters-keep-assignments.diff: snapshot {k: p.value} of the raw parameters, suite-neutral 1378 -- but is NOT applied: it changes what Simulator records per segment, which the checks of C04/C14/C09/C12 observe; lead's decision 2026-10-02: this stays a recorded finding and tools/c10_switch.py assign stays in the snapshot position)"
 }
 ASSIGN_FIXED = (f"fixed: property=C10 {commit} the per-segment parameter snapshot of a result (Simulator: model.get_parameter_values()) listed plain values "
                 "only, so a parameter given by an initial assignment in some segment was reported -- and used for fluxes, derived values and derivatives -- "
@@ -118,9 +120,9 @@ else:
     else:
         kf["findings"].append(ASSIGN_FINDING)
     swap_note(
-        "Switch position assignment-defined parameters: finding C10-assigned-parameter-snapshot recorded (the tree snapshots plain parameter values only); "
-        "cases of the oracle stream inside its guard are excused until fixes/C10-segment-parameters-keep-assignments.diff is applied and "
-        "tools/c10_switch.py assign repaired <commit> was run.",
+        "Switch position assignment-defined parameters: SNAPSHOT -- finding C10-assigned-parameter-snapshot recorded (the tree snapshots plain parameter values only); "
+        "cases of the oracle stream inside its guard are excused. The repair fixes/C10-segment-parameters-keep-assignments.diff exists but is deliberately NOT applied "
+        "(it changes what Simulator records per segment, which C04/C14/C09/C12 observe); should it ever be applied: tools/c10_switch.py assign repaired <commit>.",
         "Switch position assignment-defined parameters: fixes/C10-segment-parameters-keep-assignments.diff is applied; every case of the oracle stream is judged.",
     )
     print(f"C10 check: assignment-defined parameters -> {mode}")
